@@ -168,16 +168,21 @@ func parserHelperRules(c *Ctx, prop string) {
 	if f := c.fn(rule, ws, "btrim"); f != nil {
 		var problems []string
 		total := 0
-		kinds := []byte{' ', '\t', 'x'}
 		for L := 0; L <= 5; L++ {
 			L := L
+			// short inputs range over every byte some library function takes for white space (the
+			// HTTP grammar knows only SP and HTAB); longer ones over {space, tab, other}
+			kinds := []byte{' ', '\t', 'x'}
+			if L <= 3 {
+				kinds = []byte{' ', '\t', 'x', '\n', '\v', '\f', '\r', 0x85, 0xA0, 0}
+			}
 			m := c.machine()
 			var cur []byte
 			ps := m.Explore(f, func(mm *fold.Machine) []fold.Val {
 				cur = make([]byte, L)
 				el := make([]fold.Val, L)
 				for i := range el {
-					cur[i] = kinds[mm.Choose(fmt.Sprintf("b%d", i), 3)]
+					cur[i] = kinds[mm.Choose(fmt.Sprintf("b%d", i), len(kinds))]
 					el[i] = fold.K(int64(cur[i]))
 				}
 				return []fold.Val{mm.NewBytes("bts", el)}
@@ -210,7 +215,7 @@ func parserHelperRules(c *Ctx, prop string) {
 			}
 		}
 		c.R.AddCells(total)
-		c.verdict(rule, rule+"/btrim", c.P.FuncPos(f), uniq(problems), fmt.Sprintf("%d inputs over {space, tab, other}^0..5", total))
+		c.verdict(rule, rule+"/btrim", c.P.FuncPos(f), uniq(problems), fmt.Sprintf("%d inputs: every white-space-like byte for lengths 0..3, {space, tab, other} for 4..5", total))
 	}
 	// ---- canonicalizeHeaderKey on the handshake header names in three spellings ----
 	if f := c.fn(rule, ws, "canonicalizeHeaderKey"); f != nil {
